@@ -88,3 +88,13 @@ Print Assumptions C12_f64_exact.
 (* the finite 1e39 is beyond the binary32 range: it is stored as +infinity (recorded finding of C20 at 32 bits) *)
 Example C12_f32_overflow : load_code 32 (store_code 32 1e39%float) = PrimFloat.infinity.
 Proof. vm_compute. reflexivity. Qed.
+
+(* monotone at 32 bits *)
+Theorem C12_f32_monotone : forall x y : PrimFloat.float,
+  BinarySingleNaN.is_finite (Prim2B x) = true -> BinarySingleNaN.is_finite (Prim2B y) = true ->
+  (Rabs (round radix2 (FLT_exp (-149) 24) ZnearestE (BinarySingleNaN.B2R (Prim2B x))) < bpow radix2 128)%R ->
+  (Rabs (round radix2 (FLT_exp (-149) 24) ZnearestE (BinarySingleNaN.B2R (Prim2B y))) < bpow radix2 128)%R ->
+  (BinarySingleNaN.B2R (Prim2B x) <= BinarySingleNaN.B2R (Prim2B y))%R ->
+  (BinarySingleNaN.B2R (Prim2B (load_code 32 (store_code 32 x))) <= BinarySingleNaN.B2R (Prim2B (load_code 32 (store_code 32 y))))%R.
+Proof. exact f32_monotone. Qed.
+Print Assumptions C12_f32_monotone.
